@@ -165,7 +165,16 @@ pub struct Answer {
 
 /// `{:?}` into a bounded buffer: a value with an in-memory reference cycle (possible once Lazy
 /// cells are loaded) would otherwise recurse without end inside the *harness*.
+thread_local! {
+    /// set on walker threads: results are only classified Ok/Err there, so values are not rendered
+    /// (rendering a deep structure would also recurse on the small stack that is under test)
+    pub static LIGHT: std::cell::Cell<bool> = const { std::cell::Cell::new(false) };
+}
+
 pub fn debug_bounded<T: std::fmt::Debug>(v: &T) -> String {
+    if LIGHT.with(|l| l.get()) {
+        return String::new();
+    }
     struct Bounded(String);
     impl std::fmt::Write for Bounded {
         fn write_str(&mut self, s: &str) -> std::fmt::Result {
